@@ -47,6 +47,7 @@ class FnContract:
     batch_post: bool = False       # emit the conjunction of the postconditions as one obligation per path (instances with very many paths)
     case_split: Dict[str, str] = field(default_factory=dict)  # local -> clause assumed right after it is assigned: this contract
     #                                                           instance covers that case only (the doc states which cases the instances cover)
+    static_loops: Optional[int] = None   # number of loops the loop contracts were written for (a different count: contract is stale)
     record_as: Optional[str] = None   # ghost call log name: callers' postconditions may use ncalls()/called_with()
     use_wf: bool = True            # class invariant is pre and post
     wf_pre: bool = True
